@@ -2,7 +2,7 @@ from checks._world_common import ASSUMPTIONS, COMPONENTS, make, simplify_knobs, 
 
 PROP = "C05"
 LEVEL = "exploration"
-RUNS = {"quick": 2500, "thorough": 100000}
+RUNS = {"quick": 3000, "thorough": 100000}
 BUDGET_S = {"quick": 50, "thorough": 840}
 CHUNK = 50
 RULE = ("One evaluation = one seeded history with composite steps status -> run --dry-run -> run from the same state (three-way agreement inside the cone), `gwf status` with every combination of -s/--endpoints/patterns/-f default|summary compared to the restriction of the full table computed with the harness' own filter semantics (including empty restrictions), and purity snapshots (all project files content+mtime, parsed .gwf/*.json, scheduler mutation journal) around status and dry-run. Non-trivial = at least one of these comparisons ran.")
